@@ -254,6 +254,11 @@ with ictx_depth (ic : ictx) : nat :=
   | ZItemD _ c => S (ctx_depth c)
   end.
 
+(* the keys of a dict literal are literals and any two of them have different (canonical) values *)
+Definition distinct_literal_keys (l : list (expr * expr)) : Prop :=
+  forall l1 p l2 q l3, l = l1 ++ p :: l2 ++ q :: l3 ->
+    exists a b, fst p = ELit a /\ fst q = ELit b /\ norm a <> norm b.
+
 (* ---------- the documented equivalences, as a relation on expressions ---------- *)
 
 (* the local rewrites of the property text that live in the expression language (comments, parentheses and
